@@ -6,6 +6,9 @@ pub(crate) use core_graph::{
 };
 pub(crate) use request_scoped::{request_scoped_call_graph, request_scoped_ordered_call_graph};
 
+#[cfg(pavex_verif)]
+pub use dependency_graph::verif_find_cycles;
+
 mod application_state;
 mod borrow_checker;
 mod codegen;
